@@ -128,7 +128,11 @@ inline Layout walk(const Oct &in, const std::vector<std::string> &names = std::v
 				L.add(base, 1, "pkesk.ver"); L.add(base + 1, 8, "pkesk.keyid"); L.add(base + 9, 1, "pkesk.algo"); q = 10; int a = b[9];
 				if (a == 1 || a == 2) ok = walk_mpis(b, q, len, 1, "pkesk", base, L);
 				else if (a == 16) ok = walk_mpis(b, q, len, 2, "pkesk", base, L);
-				else if (a == 18) { ok = walk_mpis(b, q, len, 1, "pkesk", base, L); if (ok && q < len) { L.add(base + q, 1, "pkesk.wraplen"); L.add(base + q + 1, len - q - 1, "pkesk.wrapped"); q = len; } }
+				else if (a == 18) { size_t q0 = q; ok = walk_mpis(b, q, len, 1, "pkesk", base, L);
+					// native X25519 point (0x40 || 32 octets, little endian): RFC 7748 section 5 makes every receiver ignore the
+					// most significant bit of the last octet -> that octet gets its own region (see c20_core.hh: format_ignored)
+					if (ok && q - q0 == 2 + 33 && b[q0 + 2] == 0x40) { L.r.back().len -= 1; L.add(base + q - 1, 1, "pkesk.x25519_last_octet"); }
+					if (ok && q < len) { L.add(base + q, 1, "pkesk.wraplen"); L.add(base + q + 1, len - q - 1, "pkesk.wrapped"); q = len; } }
 				else ok = false;
 			}
 		} else if (tag == 3) {
